@@ -154,16 +154,20 @@ Definition w_example : world :=
 Example w_example_reachable : reachable S repaired w_example.
 Proof. unfold w_example. apply R_del. do 4 apply R_proc. apply R_init. exact nodup_path. Qed.
 
-(* user u2's cache files are believed, user u1's are not (one was deleted); the database holds
+(* the cache files of user u2 are believed, those of user u1 are not (one was deleted); the database holds
    a 2.0 and lost a 1.0 (undeclared) and a 3.0 (undeclared by a command that died before its
    cache update) *)
 Example w_example_nontrivial :
-  believed w_example u2 s1 (fallbacks L) = true /\ believed w_example u1 s1 (fallbacks L) = false /  q_db w_example (QFind a (lit "2.0") L) = AStackRec (Some (s1, (lit "/prod/a", lit "/prod/a/ups/a.table"))) /  q_db w_example (QFind a (lit "3.0") g) = AStackRec None.
+  believed w_example u2 s1 (fallbacks L) = true /\ believed w_example u1 s1 (fallbacks L) = false /\
+  q_db w_example (QFind a (lit "2.0") L) = AStackRec (Some (s1, (lit "/prod/a", lit "/prod/a/ups/a.table"))) /\
+  q_db w_example (QFind a (lit "3.0") g) = AStackRec None.
 Proof. vm_compute. repeat split. Qed.
 
 Example w_example_answers :
   q_cache (snd (load S repaired w_example u2 L)) (QFind a (lit "2.0") L) =
-    AStackRec (Some (s1, (lit "/prod/a", lit "/prod/a/ups/a.table"))) /  q_cache (snd (load S repaired w_example u2 L)) (QFind a (lit "3.0") g) = AStackRec None /  q_cache (snd (load S repaired w_example u1 L)) (QDeclared s1 a (lit "1.0") L) = ABool false.
+    AStackRec (Some (s1, (lit "/prod/a", lit "/prod/a/ups/a.table"))) /\
+  q_cache (snd (load S repaired w_example u2 L)) (QFind a (lit "3.0") g) = AStackRec None /\
+  q_cache (snd (load S repaired w_example u1 L)) (QDeclared s1 a (lit "1.0") L) = ABool false.
 Proof. vm_compute. repeat split. Qed.
 
 (* D1, the pinned ProductFamily.removeVersion: it looks for the tags of the version among the
